@@ -76,6 +76,8 @@ def gen_chain_scene(
         # attach to origin / frame / earlier body
         cands = ["origin"] + [["frame", k] for k in range(len(scene["frames"]))] + [["body", j] for j in range(i)]
         a = cands[int(rng.integers(len(cands)))] if i > 0 else (cands[int(rng.integers(len(cands)))] if rng.random() < 0.9 else None)
+        if i == 0 and scene["frames"] and scene["frames"][0].get("motion") and rng.random() < 0.6:
+            a = ["frame", 0]  # a moving frame is there to move something
         if a is None:
             dof += 6 if b["kind"] == "rigid" else 3
             continue  # free-floating first body
@@ -99,6 +101,8 @@ def gen_chain_scene(
             jt["rb"] = [0.0, 0.0, 0.0] if b["kind"] == "point" else rng.uniform(-0.2, 0.2, 3).tolist()
         if ty == "revolute":
             jt["angle0"] = float(rng.choice([0.0, rng.uniform(-3, 3)]))
+        if rng.random() < (0.5 if (a != "origin" and a[0] == "frame") else 0.3):
+            jt["swap"] = True  # parent handed over as second partner
         scene["joints"].append(jt)
         parent_of[i] = a
         dof += (6 if b["kind"] == "rigid" else 3) - (NCON[ty] if b["kind"] == "rigid" else min(NCON[ty], 3))
